@@ -92,11 +92,22 @@ def run_one(m, tier="quick", budget=None):
                                         capture_output=True, text=True, timeout=600)
                     oks.append(rr.returncode == 1 and "VIOLATION" in rr.stdout and "different violation class" not in rr.stdout)
                 results[pid]["replay_reproduces"] = all(oks)
+                if not all(oks):
+                    try:
+                        hd = json.load(open(rp))["violation"].get("history_dependent") or {}
+                        if hd.get("range_reproduces_in_fresh_process") is False:
+                            # the check itself says so in the replay file: allocator-dependent (address re-use)
+                            results[pid]["replay_reproduces"] = "declared-not-reproducible"
+                    except Exception:  # noqa
+                        pass
         detected = [p for p, v in results.items() if v["rc"] == 1]
         bad_replay = [p for p, v in results.items() if v.get("replay_reproduces") is False]
         res = "detected" if detected else "MISSED"
         if bad_replay:
             res = "REPLAY-FAILS"
+        elif any(v.get("replay_reproduces") == "declared-not-reproducible" for v in results.values()):
+            res = "detected"
+            m = dict(m, note="replay declared not reproducible (address re-use)")
         return dict(m, result=res, by=detected, results=results, wall=round(time.time() - t0, 1))
     finally:
         shutil.rmtree(tmp, ignore_errors=True)
@@ -122,7 +133,7 @@ def main(args):
                     tag = "ok-quiet"
             elif tag not in ("detected",):
                 missed += 1
-            print(f"{tag:9s} {r['prop']} {r['name']} by={r.get('by')} wall={r.get('wall')}s {r.get('detail', '')}", flush=True)
+            print(f"{tag:9s} {r['prop']} {r['name']} by={r.get('by')} wall={r.get('wall')}s {r.get('detail', '')} {r.get('note', '')}", flush=True)
             if tag not in ("detected", "ok-quiet"):
                 print("          " + json.dumps({k: v for k, v in r.get("results", {}).items()})[:600])
             out.append({k: v for k, v in r.items() if k not in ("old", "new", "extra")})
